@@ -23,7 +23,10 @@ RULE = (
     "history compared numerically by period. After loading and before resuming: for every "
     "connected EV network.get_ev(station) is ev_history[id] is the pending unplug event's ev; the "
     "pending queue has the same (time,type,session) multiset as the interrupted original; a second "
-    "load pops its whole queue in non-decreasing (time, unplug<plug-in<recompute) order. "
+    "load pops its whole queue in non-decreasing (time, unplug<plug-in<recompute) order. In "
+    "addition every scenario is dumped and loaded before its first period (the loaded simulator, "
+    "given a fresh scheduler, must reproduce the uninterrupted run) and after completion (same "
+    "outcome, same dump). "
     "Non-trivial = at the crash point an EV is connected and an event is pending."
 )
 ASSUMPTIONS = [
@@ -124,6 +127,28 @@ def prop(spec, rec):
     if points == "all":
         points = [[t, mode] for t in m.invocations for mode in ("resume", "json")]
     nontrivial = False
+    # a JSON round trip before the first period and after the last one (no interruption involved)
+    if spec.get("json_at_ends", True):
+        h0 = sc.build_sim(spec)
+        with warnings.catch_warnings():
+            warnings.simplefilter("ignore")
+            js0 = h0.sim.to_json()
+            s0 = Simulator.from_json(js0)
+            diff = first_difference(canonical_dump(js0), canonical_dump(s0.to_json()))
+        require(diff is None, "loaded_state_incomplete", lambda: "fresh simulator: dump of the loaded object differs at %s" % diff)
+        sched0 = sc.make_scheduler(spec)
+        s0.update_scheduler(sched0)
+        hh = sc.Handle(spec, s0, s0.network, {}, sched0)
+        sc.run_sim(hh)
+        compare(ref, outcome(s0), "loaded before the first period")
+        with warnings.catch_warnings():
+            warnings.simplefilter("ignore")
+            jse = href.sim.to_json()
+            se = Simulator.from_json(jse)
+            diff = first_difference(canonical_dump(jse), canonical_dump(se.to_json()))
+        require(diff is None, "loaded_state_incomplete", lambda: "completed simulator: dump of the loaded object differs at %s" % diff)
+        compare(ref, outcome(se), "loaded after completion")
+        labels.add("json_before_start_and_after_end")
     for t, mode in points:
         what = "crash at %d (%s)" % (t, mode)
         h = sc.build_sim(spec, crash_at=t)
